@@ -49,7 +49,7 @@ pub fn plan(property: &str) -> Option<Plan> {
         "C09" => Plan { property: "C09", level: "exploration", parts: vec![(Corrupt, 60000, 2000000)], rule: "one case = an image from a live run, damaged by 1-3 raw-sector or stream-layer faults, then open + read sweep + mutate sweep + flush; non-trivial = the corruption was applied and open was attempted; distinct = different fingerprint", assumptions: common_assume },
         "C10" => Plan { property: "C10", level: "exploration", parts: vec![(Summary, 30000, 600000)], rule: rule_hist, assumptions: common_assume },
         "C11" => Plan { property: "C11", level: "exploration", parts: vec![(Streams, 24000, 500000), (Handles, 8000, 200000)], rule: rule_hist, assumptions: common_assume },
-        "C16" => Plan { property: "C16", level: "exploration", parts: vec![(Clean, 15000, 300000), (Foreign, 10000, 200000), (Streams, 5000, 100000)], rule: rule_hist, assumptions: common_assume },
+        "C16" => Plan { property: "C16", level: "exploration", parts: vec![(ReadOnly, 14000, 300000), (Clean, 8000, 200000), (Foreign, 6000, 150000), (Streams, 4000, 100000)], rule: rule_hist, assumptions: common_assume },
         _ => return None,
     })
 }
